@@ -92,7 +92,7 @@ func main() {
 		fmt.Printf("%-34s %-12s paths=%d done=%d pruned=%d queries=%d (unknown=%d) solver=%.1fs wall=%.1fs\n",
 			r.Name, r.Verdict, r.Paths, r.PathsDone, r.PathsAssume, r.Queries, r.Unknown, r.SolverS, r.WallS)
 		for _, s := range r.Inconclusive {
-			if strings.Contains(s, "engine bug") {
+			if strings.Contains(s, "engine bug") || *verbose {
 				fmt.Printf("    inconclusive: %s\n", s)
 			} else {
 				fmt.Printf("    inconclusive: %s\n", firstLine(s))
@@ -114,6 +114,9 @@ func main() {
 		}
 		for _, v := range r.Violations {
 			if v.Confirmed["engine_concrete"] != "yes" {
+				if *verbose {
+					fmt.Printf("    unconfirmed counterexample: %s %s\n%s\n    inputs: %v\n", v.Kind, v.Label, v.Detail, v.Inputs)
+				}
 				continue
 			}
 			kid := known.match(prop, r.Name, v.Label)
